@@ -51,7 +51,7 @@ PROBES = ["unset_below_non_default_ancestor", "set_on_sibling", "invalid_value_r
           "iterator_rerender_reveals_method", "file_backed_iterm2_render",
           "style_subclass_with_mixin", "animated_iterm2_direct_render",
           "subclass_redeclares_render_methods", "method_changed_under_live_iterator",
-          "subclass_with_derived_metaclass"]
+          "subclass_with_derived_metaclass", "non_string_method_on_instance"]
 COMPONENTS = {
     "real": ["BaseImage.set_render_method (class and instance forms)", "ImageMeta.forced_support",
              "ITerm2ImageMeta + ClassInstanceProperty / ClassProperty descriptors",
@@ -389,11 +389,13 @@ def run(ch, ctx, fault=None):
                 idx = ch.int("inst", 0, len(n.instances) - 1)
                 obj, own = n.instances[idx]
                 val = ch.pick("mval", ("lines", "whole", None, "anim", "bogus", "LINES", "Whole",
-                                       "ANIM", "Lines"))
+                                       "ANIM", "Lines", 0, False, (), 7, ""))
                 desc = "%s#%d.set_render_method(%r)" % (n.name, idx, val)
                 valid_set = n.accepted_methods()
                 ok = expect(lambda: obj.set_render_method(val), ("ValueError", "TypeError"), desc)
-                should = val is None or val.lower() in valid_set
+                should = val is None or isinstance(val, str) and val.lower() in valid_set
+                if not isinstance(val, str) and val is not None:
+                    ctx.probe("non_string_method_on_instance")
                 check(ok == should, "set_render_method_acceptance", {"op": desc, "accepted": ok},
                       "inst_method")
                 if should:
